@@ -64,6 +64,15 @@ mod opcodes;
 pub mod repl;
 pub mod state;
 
+/// Verification hooks: pass-through access to private kernels. Adds code only.
+#[cfg(any(kani, feature = "verif_hooks"))]
+pub mod verif_hooks {
+    pub use crate::opcodes::RelativeJump;
+    pub use crate::fmt_flags::FmtFlags;
+    pub use crate::bitstr::verif_hooks::*;
+    pub use crate::state::verif_hooks::*;
+}
+
 pub mod prelude {
     pub use std::convert::TryInto;
     pub type Xstate = crate::state::State;
